@@ -155,7 +155,17 @@ class Kernel:
         return self.loops.get(ordinal)
 
     def range_for(self, I, n):
-        raise Gap("range-for at line %s has no model" % extract.line_of(n))
+        return NotImplemented
+
+    def range_pos(self, I):
+        """position index of the innermost range-for iterator (for invariants)"""
+        f = I.ctx.frame if I.ctx.frames else I.ctx.last_frame
+        while f is not None:
+            for did, b in reversed(list(f.vars.items())):
+                if isinstance(b, Loc) and b.key[0] == "L" and str(b.key[-1]).startswith("__begin"):
+                    return I.ctx.load(b).idx
+            f = f.parent
+        raise Gap("no range-for iterator in scope")
 
     def string_literal(self, I, s):
         return z3.IntVal(self.string_id(s))
